@@ -62,6 +62,12 @@ def cases(tier, seed):
                                 continue
                             yield dict(kind="blockmean", layout=[2, 2], sites=ms, order=order, ncomp=ncomp, w=w, unc=unc,
                                        region=region, center=center)
+                            if ncomp == 2 and region == "given":
+                                # parameters reached through set_params / attribute assignment / clone instead of the constructor
+                                # (seed C10-r3_1: the weighting rule bound once in __init__)
+                                for route in ("set_params", "attribute", "clone"):
+                                    yield dict(kind="blockmean", layout=[2, 2], sites=ms, order=order, ncomp=ncomp, w=w, unc=unc,
+                                               region=region, center=center, route=route)
                             if ncomp == 1 and not center and region == "given":
                                 # non-dyadic data on a large base level (gravity-like 978000.x): exposes cancellation in one-pass variance
                                 # formulas (seed C10-r2_2); compared at 1e-6 relative with the exact rational result
@@ -167,7 +173,21 @@ def run(case, rec):
         if wts is not None:
             w_arg = tuple(np.ascontiguousarray(w.reshape(shp).T).T for w in wts)
     before = [a.tobytes() for a in [e, n] + data + (wts or [])]
-    bm = call(rec, vd.BlockMean, **kw)
+    route = case.get("route")
+    if route in ("set_params", "attribute"):
+        other = dict(kw, uncertainty=not kw["uncertainty"], center_coordinates=not kw["center_coordinates"], spacing=kw["spacing"] * 2)
+        bm = call(rec, vd.BlockMean, **other)
+        if not raised(bm):
+            if route == "set_params":
+                bm.set_params(**kw)
+            else:
+                for k_, v_ in kw.items():
+                    setattr(bm, k_, v_)
+    elif route == "clone":
+        from sklearn.base import clone
+        bm = call(rec, lambda: clone(vd.BlockMean(**kw)))
+    else:
+        bm = call(rec, vd.BlockMean, **kw)
     if raised(bm):
         return rec.check(False, "BlockMean() raised %r" % (bm,))
     got = call(rec, bm.filter, c_arg, d_arg, w_arg)
